@@ -20,7 +20,7 @@
      deleted nor registered again and — when x (exclusive) — nobody registered v again. *)
 From Coq Require Import List ZArith Bool Permutation Lia.
 From GZgen Require Import C13Consts.
-From GZ Require Import C13.Model C13.Proofs C13.ProofsB C13.ProofsC C13.ProofsD C13.ProofsE C13.ProofsF C13.ProofsG C13.ProofsH C13.ProofsI C13.ProofsJ C13.GenProofs.
+From GZ Require Import C13.Model C13.Proofs C13.ProofsB C13.ProofsC C13.ProofsD C13.ProofsE C13.ProofsF C13.ProofsG C13.ProofsH C13.ProofsI C13.ProofsJ C13.ProofsK C13.GenProofs.
 Import ListNotations.
 Open Scope Z_scope.
 
@@ -107,7 +107,7 @@ Theorem registry_copy_while_replaying : forall h ds xs,
   (pos <= hi)%nat /\
   forall k, mget k (fold_left bapply (seg pos hi h) (rvals (run (init xs) (map ev_of_g ds)))) =
             mget k (etcd_state h hi).
-Proof. intros h ds xs H. rewrite rvals_truth. exact (truth_consistent_lagging h ds H). Qed.
+Proof. exact rvals_consistent_lagging. Qed.
 Print Assumptions registry_copy_while_replaying.
 
 (* Check.consistent_b (evaluated on what the fake etcd logged in every "cluster" case of the
@@ -116,6 +116,67 @@ Theorem consistency_checker_is_sound : forall h ds pos hi,
   consistent_b h pos hi ds = true -> consistent h pos hi ds.
 Proof. exact consistent_b_sound. Qed.
 Print Assumptions consistency_checker_is_sound.
+
+(* The watch loop itself (watchUntil / watchStream / setupWatch) against etcd's stream protocol,
+   with the response HEADERS in the picture.  [sact]: SBatch n hd = one watch response with the
+   next n mutations of the stream and header position hd - etcd catches a watcher that is behind
+   up in batches and stamps every batch with the CURRENT store revision, so pos + n <= hd and the
+   mutations in between are still to come (n = 0: progress notification); SBreak = the stream ends
+   without compaction (closed channel, Canceled response, other errors); SLoad = compaction error
+   or reconnect: load + new stream; SJoin = a further listener.  [wf_script] = what etcd
+   guarantees, nothing else: ANY batching, ANY headers within those bounds, errors / compactions /
+   reconnects after ANY batch.  [watch_loop pol] = the deliveries the loop obtains when it resumes
+   a broken stream from the revision of the last load (RLoadRev: the code) or from the last
+   handled event (RLastEvent).  Every such run is a consistent delivery ... *)
+Theorem watch_loop_delivery_is_consistent : forall pol h script,
+  pol <> RHeader -> wf_script pol h 0 0 script ->
+  consistent h 0 0 (watch_loop pol h 0 0 script).
+Proof. exact watch_loop_consistent. Qed.
+Print Assumptions watch_loop_delivery_is_consistent.
+
+(* ... hence, whenever the current stream has caught up, Values() of every subscriber is / is
+   within the registrations - whatever was batched, stamped, broken and replayed before.
+   Resuming from the last HEADER revision instead (RHeader, seeded change C13-9) is refuted in
+   Pinned.resume_from_header_refuted; it is consistent only while no header is ever ahead of the
+   events delivered (next theorem), which is why no test with an in-sync watcher notices. *)
+Theorem view_equals_etcd_under_any_batching_and_stream_errors : forall pol h script xs c,
+  pol <> RHeader -> wf_script pol h 0 0 script ->
+  let ds := watch_loop pol h 0 0 script in
+  wf_run (init xs) (map ev_of_g ds) ->
+  In c (conts (run (init xs) (map ev_of_g ds))) ->
+  fst (final_pos_g 0 0 ds) = snd (final_pos_g 0 0 ds) ->
+  let now := etcd_state h (snd (final_pos_g 0 0 ds)) in
+  NoDup (c_values c) /\
+  (cexcl c = false -> forall v, In v (c_values c) <-> registered now v) /\
+  (cexcl c = true -> forall v, In v (c_values c) -> registered now v).
+Proof. exact watch_loop_views. Qed.
+Print Assumptions view_equals_etcd_under_any_batching_and_stream_errors.
+
+Theorem resume_from_header_is_consistent_only_in_sync : forall h script,
+  wf_script RHeader h 0 0 script -> headers_in_sync RHeader 0 0 script ->
+  consistent h 0 0 (watch_loop RHeader h 0 0 script).
+Proof. exact watch_loop_header_consistent_in_sync. Qed.
+Print Assumptions resume_from_header_is_consistent_only_in_sync.
+
+(* non-vacuity: etcd: put 1=10, put 2=20, delete 1, put 3=30, put 4=40.  Load after the first
+   mutation; the watcher is behind: a partial batch [put 2=20] stamped with the revision of the
+   4th mutation; the stream breaks; the code resumes from the load revision: [put 2, delete 1]
+   and [put 3, put 4] (header = store) arrive: caught up, the view is the store. *)
+Definition ex_bh : list bev := [BPut 1 10; BPut 2 20; BDel 1; BPut 3 30; BPut 4 40].
+Definition ex_bscript : list sact :=
+  [SLoad 1 [(1, 10)] [LAdd 1 10]; SBatch 1 4; SBreak; SBatch 2 5; SJoin false [(2, 20)]; SBatch 2 5; SBatch 0 5].
+Example ex_batched_catch_up :
+  wf_script RLoadRev ex_bh 0 0 ex_bscript /\
+  watch_loop RLoadRev ex_bh 0 0 ex_bscript =
+    [GLoad 1 [(1, 10)] [LAdd 1 10]; GRestart 1; GResp 1 [BPut 2 20]; GRestart 1; GResp 1 [BPut 2 20; BDel 1];
+     GJoin false [(2, 20)]; GResp 3 [BPut 3 30; BPut 4 40]; GResp 5 []] /\
+  final_pos_g 0 0 (watch_loop RLoadRev ex_bh 0 0 ex_bscript) = (5%nat, 5%nat) /\
+  map c_values (conts (run (init [false]) (map ev_of_g (watch_loop RLoadRev ex_bh 0 0 ex_bscript)))) = [[40; 30; 20]; [40; 30; 20]] /\
+  etcd_state ex_bh 5 = [(4, 40); (3, 30); (2, 20)].
+Proof.
+  split; [|repeat split; reflexivity].
+  cbn. repeat split; lia.
+Qed.
 
 (* ... and every subscriber (in particular the exclusive ones) shows exactly the live
    values of the calls it received ([logs]: the i-th listener's flag and call log). *)
